@@ -6,7 +6,7 @@
 (* mechanism transcription against the same clauses.                                   *)
 EXTENDS Integers, Sequences, FiniteSets, TLC
 
-Probes == {"p1", "p2", "p3", "p4", "p5", "p6", "p7", "p8", "p9", "p10", "p11", "p12", "p13", "q2", "bad", "bad2", "bad3"}
+Probes == {"p1", "p2", "p3", "p4", "p5", "p6", "p7", "p8", "p9", "p10", "p11", "p12", "p13", "p14", "p15", "q2", "bad", "bad2", "bad3"}
 \* bad = 'f > zzz' (no such variable), bad2 = 'g > #nope' (no such meta-variable): refused with a selector error;
 \* bad3 = 'f > lam > a' where lam is a lambda: refused with a type error AFTER f, the first function of the path, was tooled
 Valid(p) == p \notin {"bad", "bad2", "bad3"}
@@ -17,7 +17,8 @@ Fns == {"f", "g", "h1", "h2"}
 \* p10 = Probe('f > a', 'f(!a)'): one probe given the same selector twice, in two spellings (one interned object)
 \* q2 = a plain overlay (no probing(), hence no tooling of its own) tapping 'f > b' on functions that were tooled in place
 \* beforehand: only used in histories whose functions are pre-tooled
-Touches(p) == CASE p = "q2" -> {} [] p \in {"p1", "p2", "p5", "p7", "p8", "p9", "p10", "p11", "bad", "bad3"} -> {"f"}
+\* p14, p15 = probing('f > a', overridable=True) whose pipeline overrides a with the value it already has: both are listeners too
+Touches(p) == CASE p = "q2" -> {} [] p \in {"p1", "p2", "p5", "p7", "p8", "p9", "p10", "p11", "p14", "p15", "bad", "bad3"} -> {"f"}
                 [] p \in {"p3", "p6"} -> {"f", "g"}
                 [] p \in {"p4", "bad2"} -> {"g"}
                 [] p = "p12" -> {"h1"} [] p = "p13" -> {"h2"}
@@ -29,7 +30,7 @@ Touches(p) == CASE p = "q2" -> {} [] p \in {"p1", "p2", "p5", "p7", "p8", "p9", 
 RetOf(fn, v) == CASE fn = "f" -> 2 * v + 102 [] fn = "g" -> v + 100 [] fn = "h1" -> v + 1000 [] fn = "h2" -> v + 2000
 \* events (records as sets of <<key, value>>) that one call owes to probe p, in order
 EventsOf(p, fn, v) ==
-  CASE p = "p1" /\ fn = "f" -> << {<<"a", v + 1>>} >>
+  CASE p \in {"p1", "p14", "p15"} /\ fn = "f" -> << {<<"a", v + 1>>} >>
     [] p \in {"p2", "q2"} /\ fn = "f" -> << {<<"b", 2 * v + 2>>} >>
     [] p = "p3" /\ fn = "f" -> << {<<"fa", v + 1>>, <<"a", 2 * v + 102>>} >>
     [] p = "p4" /\ fn = "f" -> << {<<"a", 2 * v + 102>>} >>
